@@ -28,6 +28,7 @@ func registerIntrinsics(e *Engine) {
 	registerSort(e)
 	registerHash(e)
 	registerIO(e)
+	registerJSONDB(e)
 	registerMisc2(e)
 	for _, n := range []string{"String", "Int64", "Bool", "Int", "StringValue", "Int64Value", "BoolValue"} {
 		allowExecNames["github.com/go-openapi/swag."+n] = true
